@@ -220,7 +220,12 @@ impl Lexer {
                 "and" => Some(Lexem::And),
                 "not" if self.after_where => Some(Lexem::Not),
                 "order" => Some(Lexem::Order),
-                "by" => Some(Lexem::By),
+                "by" => {
+                    // the keys of ORDER BY / GROUP BY are expressions: operators and commas mean
+                    // what they mean after WHERE, also in a query that has no WHERE clause
+                    self.after_where = true;
+                    Some(Lexem::By)
+                }
                 "asc" => self.next_lexem(),
                 "desc" => Some(Lexem::DescendingOrder),
                 "limit" => Some(Lexem::Limit),
